@@ -44,6 +44,8 @@ def forms(X, Y, Z):
         "from": [("from", I(0), B("%", V("q"), I(3)), False, None, None, X)],
         "while_break": loop_head + [("while", wcond, [step, ("if", [(C1, [("break",)])], None)] + X)],
         "from_continue": [("from", I(0), I(2), False, None, None, [("if", [(C2, [("continue",)])], None)] + X)],
+        "while_true_break": [("while", ("bool", True), [("if", [(C2, [("break",)])], None)] + X)],
+        "while_true_nested_break": [("while", ("bool", True), [("if", [(C1, [("if", [(C2, [("break",)])], None)])], None)] + X)],
         "nested_if": [("if", [(C1, [("if", [(C2, X)], Y)])], Z)],
         "loop_in_else": [("if", [(C1, X)], [("from", I(0), B("%", V("q"), I(3)), False, None, None, Y)])],
     }
@@ -60,7 +62,7 @@ def return_items():
     seen, out = set(), []
     for it in items:
         _, f, (x, y, z, tail) = it
-        uses = {"if": 1, "while": 1, "from": 1, "while_break": 1, "from_continue": 1, "if_else": 2, "if_elif": 2, "loop_in_else": 2}.get(f, 3)
+        uses = {"if": 1, "while": 1, "from": 1, "while_break": 1, "from_continue": 1, "while_true_break": 1, "while_true_nested_break": 1, "if_else": 2, "if_elif": 2, "loop_in_else": 2}.get(f, 3)
         key = (f, (x, y, z)[:uses], tail)
         if key in seen:
             continue
